@@ -1,6 +1,8 @@
 (* C20 — a user's balance in shared memory and in .PASSWDS. Executable model of
-   cache/cache_money.go (SetUMoney, DeUMoney, MoneyOf), cache/passwd.go (passwdUpdateMoney) and of
-   the part of cache/uhash_loader.go that fills Shm.Money from .PASSWDS on a cold load.
+   cache/cache_money.go (SetUMoney, DeUMoney, MoneyOf), cache/passwd.go (passwdUpdateMoney), of
+   the part of cache/uhash_loader.go that fills Shm.Money from .PASSWDS on a cold load, and of the
+   other writers of a user's record: ptt/passwd.go (passwdSyncUpdate, passwdSyncQuery: the cached
+   balance is overlaid on the record), cmbbs/passwd.go (PasswdUpdate, PasswdUpdatePasswd, PasswdUpdateEmail).
    MAX_USERS, USEREC_RAW_SZ and the record layout come from Gen/ (regenerated from the source). *)
 From Coq Require Import String.
 From Verif Require Import Base.Common Base.Layout Gen.Consts_default Gen.Layout_default.
@@ -106,14 +108,61 @@ Definition cold_load (f : list Z) : st :=
   let t := load_table f in
   mkst (fun i => if in_range i then nth (Z.to_nat i) t 0 else 0) f.
 
+(* ---------------------------------------------------------------- the other writers of a user's record *)
+Definition USERLEVEL_OFF : Z := offset_of "UserLevel"%string fields_UserecRaw 0.
+Definition NUMPOSTS_OFF : Z := offset_of "NumPosts"%string fields_UserecRaw 0.
+Definition PASSWD_OFF : Z := offset_of "PasswdHash"%string fields_UserecRaw 0.
+Definition EMAIL_OFF : Z := offset_of "Email"%string fields_UserecRaw 0.
+Definition PASSLEN : Z := ptttype.PASSLEN.
+Definition EMAILSZ : Z := ptttype.EMAILSZ.
+
+Definition rec_pos (uid : Z) : nat := Z.to_nat (RECSZ * (uid - 1)).
+(* UID.IsValid *)
+Definition uid_is_valid (uid : Z) : bool := (1 <=? uid) && (uid <=? MAXU).
+
+(* the Money a record (its RECSZ bytes) carries, and the record with another Money *)
+Definition rec_money (rec : list Z) : Z := dec32 (read_at rec (Z.to_nat MONEY_OFF) 4).
+Definition rec_with_money (rec : list Z) (m : Z) : list Z := write_at rec (Z.to_nat MONEY_OFF) (enc32 m).
+
+(* cmbbs.PasswdUpdate: the whole record at its position *)
+Definition passwd_update (s : st) (uid : Z) (rec : list Z) : st * option Z :=
+  if negb (uid_is_valid uid) then (s, Some ERR_INVALID_UID)
+  else (mkst (shm s) (write_at (file s) (rec_pos uid) rec), None).
+
+(* ptt.passwdSyncUpdate: user.Money = cache.MoneyOf(uid); cmbbs.PasswdUpdate(uid, user).
+   The value is the Money the caller's record carries after the call (Go mutates it through the pointer). *)
+Definition passwd_sync_update (s : st) (uid : Z) (rec : list Z) : st * out :=
+  if negb (uid_is_valid uid) then (s, OErr (rec_money rec) ERR_INVALID_UID)
+  else match money_of s uid with
+       | Ok m =>
+           match passwd_update s uid (rec_with_money rec m) with
+           | (s1, Some e) => (s1, OErr m e)
+           | (s1, None) => (s1, OVal m)
+           end
+       | _ => (s, OPanic)
+       end.
+
+(* cmbbs.PasswdUpdatePasswd / PasswdUpdateEmail: one field of the record at its offset *)
+Inductive pfield : Type := FPasswd | FEmail.
+Definition pf_off (k : pfield) : Z := match k with FPasswd => PASSWD_OFF | FEmail => EMAIL_OFF end.
+Definition pf_len (k : pfield) : Z := match k with FPasswd => PASSLEN | FEmail => EMAILSZ end.
+Definition passwd_update_field (s : st) (uid : Z) (k : pfield) (bs : list Z) : st * out :=
+  if negb (uid_is_valid uid) then (s, OErr 0 ERR_INVALID_UID)
+  else (mkst (shm s) (write_at (file s) (rec_pos uid + Z.to_nat (pf_off k)) bs), OVal 0).
+
 (* ---------------------------------------------------------------- histories *)
-Inductive op : Type := OpSet (uid m : Z) | OpDe (uid m : Z) | OpGet (uid : Z).
+(* OpRewrite: a whole-record write-back through passwdSyncUpdate with ANY record of the caller's (pwcuEnd,
+   SetUserPerm, killUser, SetupNewUser all end here); OpPart: a one-field update that bypasses it *)
+Inductive op : Type := OpSet (uid m : Z) | OpDe (uid m : Z) | OpGet (uid : Z)
+                     | OpRewrite (uid : Z) (rec : list Z) | OpPart (uid : Z) (k : pfield) (bs : list Z).
 
 Definition step (s : st) (o : op) : st * out :=
   match o with
   | OpSet u m => set_umoney s u m
   | OpDe u m => de_umoney s u m
   | OpGet u => (s, match money_of s u with Ok v => OVal v | _ => OPanic end)
+  | OpRewrite u rec => passwd_sync_update s u rec
+  | OpPart u k bs => passwd_update_field s u k bs
   end.
 
 Fixpoint run (s : st) (h : list op) : st * list out :=
@@ -143,28 +192,89 @@ Definition observe (init : list Z) (s : st) : list Z :=
 Definition out_wire (x : out) : list Z :=
   match x with OVal v => [0; v; 0] | OErr v c => [3; v; c] | OPanic => [1; 0; 0] end.
 
-Definition parse_op (g : list Z) : option op :=
+(* --- the callers of passwdSyncUpdate, compiled to OpRewrite with the record they hand over --- *)
+(* encoding/binary decodes a bool byte as (b <> 0) and encodes it as 0/1: a record that went through
+   a UserecRaw value has canonical bool bytes *)
+Fixpoint canon_fields (fs : list (string * ty)) (bs : list Z) : list Z :=
+  match fs with
+  | [] => bs
+  | (_, t) :: r =>
+      let n := Z.to_nat (ty_size t) in
+      (match t with TBool => map (fun b => if b =? 0 then 0 else 1) (firstn n bs) | _ => firstn n bs end)
+      ++ canon_fields r (skipn n bs)
+  end.
+Definition canon (rec : list Z) : list Z := canon_fields fields_UserecRaw rec.
+Fixpoint bool_offsets (fs : list (string * ty)) (acc : Z) : list Z :=
+  match fs with
+  | [] => []
+  | (_, t) :: r => (match t with TBool => [acc] | _ => [] end) ++ bool_offsets r (acc + ty_size t)
+  end.
+
+Definition encu32 (v : Z) : list Z := enc32 v.
+Definition decu32 (b : list Z) : Z := nth 0 b 0 + 256 * nth 1 b 0 + 65536 * nth 2 b 0 + 16777216 * nth 3 b 0.
+(* passwdSyncQuery: the record of the file with the cached balance overlaid *)
+Definition sync_query_rec (s : st) (u : Z) : list Z :=
+  rec_with_money (canon (read_at (file s) (rec_pos u) (Z.to_nat RECSZ))) (shm s (u - 1)).
+(* SetUserPerm: setUserec.UserLevel = perm *)
+Definition rec_with_level (rec : list Z) (perm : Z) : list Z := write_at rec (Z.to_nat USERLEVEL_OFF) (encu32 perm).
+(* u.NumPosts += bump *)
+Definition rec_bump_posts (rec : list Z) (bump : Z) : list Z :=
+  write_at rec (Z.to_nat NUMPOSTS_OFF) (encu32 (decu32 (read_at rec (Z.to_nat NUMPOSTS_OFF) 4) + bump)).
+
+Definition pend : Type := list (Z * list Z).      (* records obtained by pwcuStart and not yet written back *)
+Fixpoint pend_get (p : pend) (u : Z) : option (list Z) :=
+  match p with [] => None | (v, r) :: t => if v =? u then Some r else pend_get t u end.
+Definition pend_del (p : pend) (u : Z) : pend := filter (fun x => negb (fst x =? u)) p.
+
+Definition is_rec (b : list Z) : bool := lenZ b =? RECSZ.
+Definition whole_record (s : st) (u : Z) : bool := uid_is_valid u && (RECSZ * u <=? lenZ (file s)).
+
+(* what to print as the value of the step: 0 = as the step returns it, 1 = nothing (the Go entry point has no such result) *)
+Definition parse_op (pd : pend) (s : st) (g : list Z) : option (op * pend * bool) :=
   match g with
-  | [1; u; m] => Some (OpSet u m)
-  | [2; u; m] => Some (OpDe u m)
-  | [3; u] => Some (OpGet u)
-  | [4; u] => Some (OpGet u)     (* ptt.GetUser(id of slot u).Money: passwdSyncQuery overlays MoneyOf *)
+  | [1; u; m] => Some (OpSet u m, pd, false)
+  | [2; u; m] => Some (OpDe u m, pd, false)
+  | [3; u] => Some (OpGet u, pd, false)
+  | [4; u] => Some (OpGet u, pd, false)     (* ptt.GetUser(id of slot u).Money: passwdSyncQuery overlays MoneyOf *)
+  | 5 :: u :: rec => if is_rec rec then Some (OpRewrite u (canon rec), pd, false) else None
+  | 6 :: u :: perm :: rec => if is_rec rec then Some (OpRewrite u (rec_with_level (canon rec) perm), pd, false) else None
+  | [7; u] =>                               (* pwcuStart: the record is remembered, nothing is written *)
+      if whole_record s u then Some (OpGet u, (u, sync_query_rec s u) :: pend_del pd u, false) else None
+  | [8; u; bump] =>                         (* ...; u.NumPosts += bump; pwcuEnd *)
+      match pend_get pd u with
+      | Some rec => Some (OpRewrite u (rec_bump_posts rec bump), pend_del pd u, false)
+      | None => None
+      end
+  | [9; u] =>                               (* killUser: passwdSyncUpdate(uid, &UserecRaw{}) *)
+      if uid_is_valid u then Some (OpRewrite u (repeat 0 (Z.to_nat RECSZ)), pd, true) else None
+  | 10 :: u :: bs => if lenZ bs =? PASSLEN then Some (OpPart u FPasswd bs, pd, false) else None
+  | 11 :: u :: bs => if lenZ bs =? EMAILSZ then Some (OpPart u FEmail bs, pd, false) else None
+  | [12; u] =>                              (* pwcuIncNumPost: pwcuStart; NumPosts++; pwcuEnd *)
+      if whole_record s u then Some (OpRewrite u (rec_bump_posts (sync_query_rec s u) 1), pd, true) else None
   | _ => None
   end.
 
-Fixpoint run_wire (init : list Z) (s : st) (gs : list (list Z)) : option (list Z) :=
+Definition target (o : op) : Z :=
+  match o with OpSet u _ | OpDe u _ | OpGet u | OpRewrite u _ | OpPart u _ _ => u end.
+
+Definition out_wire_mute (x : out) : list Z :=
+  match x with OVal _ => [0; 0; 0] | OErr _ c => [3; 0; c] | OPanic => [1; 0; 0] end.
+
+Fixpoint run_wire (init : list Z) (pd : pend) (s : st) (gs : list (list Z)) : option (list Z) :=
   match gs with
   | [] => Some []
   | g :: r =>
-      match parse_op g with
+      match parse_op pd s g with
       | None => None
-      | Some o => let '(s1, x) := step s o in
-                  match run_wire init s1 r with
-                  | Some t =>
-                      let u := match o with OpSet u _ | OpDe u _ | OpGet u => u end in
-                      Some (out_wire x ++ (if in_range (u - 1) then money_field (file s1) u else 0) :: observe init s1 ++ t)
-                  | None => None
-                  end
+      | Some (o, pd1, mute) =>
+          let '(s1, x) := step s o in
+          match run_wire init pd1 s1 r with
+          | Some t =>
+              let u := target o in
+              Some ((if mute then out_wire_mute x else out_wire x)
+                    ++ (if in_range (u - 1) then money_field (file s1) u else 0) :: observe init s1 ++ t)
+          | None => None
+          end
       end
   end.
 
@@ -173,11 +283,13 @@ Definition run_case (args : list (list Z)) : list Z :=
   match args with
   | [1] :: f :: gs =>
       let s := cold_load f in
-      match run_wire f s gs with
+      match run_wire f [] s gs with
       | Some t => ST_OK :: observe f s ++ t
       | None => [ST_BADCASE]
       end
   | [[2]] => [ST_OK; MAXU; RECSZ; MONEY_OFF]
+  | [[3]] => let b := bool_offsets fields_UserecRaw 0 in
+             [ST_OK; USERLEVEL_OFF; NUMPOSTS_OFF; PASSWD_OFF; PASSLEN; EMAIL_OFF; EMAILSZ; lenZ b] ++ b
   | _ => [ST_BADCASE]
   end.
 
@@ -188,6 +300,8 @@ Definition spec_step (b : Z -> Z) (o : op) : (Z -> Z) * Z :=
   | OpSet u m => (upd b u m, m)
   | OpDe u m => let v := if (m <? 0) && (b u <? - m) then 0 else b u + m in (upd b u v, v)
   | OpGet u => (b, b u)
+  | OpRewrite u _ => (b, b u)      (* no balance changes; the caller's record leaves with the balance *)
+  | OpPart _ _ _ => (b, 0)
   end.
 Fixpoint spec_run (b : Z -> Z) (h : list op) : (Z -> Z) * list Z :=
   match h with
@@ -197,18 +311,35 @@ Fixpoint spec_run (b : Z -> Z) (h : list op) : (Z -> Z) * list Z :=
 
 Definition valid (u : Z) : Prop := 1 <= u <= MAXU.
 Definition int32 (m : Z) : Prop := -2147483648 <= m <= 2147483647.
-Definition target (o : op) : Z := match o with OpSet u _ | OpDe u _ | OpGet u => u end.
-
 (* an operation of the property's histories: a valid slot, an int32 amount, and a sum that stays inside int32
-   (a debit larger than the balance saturates and has no sum to overflow) *)
+   (a debit larger than the balance saturates and has no sum to overflow); a record rewrite hands over a
+   whole record, a one-field update exactly the bytes of the field *)
 Definition op_ok (b : Z -> Z) (o : op) : Prop :=
   match o with
   | OpSet u m => valid u /\ int32 m
   | OpDe u m => valid u /\ int32 m /\ ((m < 0 /\ b u < - m) \/ int32 (b u + m))
   | OpGet u => valid u
+  | OpRewrite u rec => valid u /\ length rec = Z.to_nat RECSZ      (* ANY record: any Money, any other field *)
+  | OpPart u k bs => valid u /\ length bs = Z.to_nat (pf_len k)
   end.
 Fixpoint hist_ok (b : Z -> Z) (h : list op) : Prop :=
   match h with [] => True | o :: r => op_ok b o /\ hist_ok (fst (spec_step b o)) r end.
+
+(* what the caller hands over has the size the Go type gives it (a UserecRaw, a Passwd_t, an Email_t) *)
+Definition op_shape (o : op) : Prop :=
+  match o with
+  | OpRewrite _ rec => length rec = Z.to_nat RECSZ
+  | OpPart _ k bs => length bs = Z.to_nat (pf_len k)
+  | _ => True
+  end.
+(* (start, length) of the bytes of .PASSWDS an operation may write: the 4 bytes of the Money field for the money
+   operations, the record for a whole-record write-back, the field for a one-field update *)
+Definition footprint (o : op) : nat * nat :=
+  match o with
+  | OpRewrite u _ => (rec_pos u, Z.to_nat RECSZ)
+  | OpPart u k _ => ((rec_pos u + Z.to_nat (pf_off k))%nat, Z.to_nat (pf_len k))
+  | OpSet u _ | OpDe u _ | OpGet u => (money_pos u, 4%nat)
+  end.
 
 (* segment, file and arithmetic agree on every valid slot; .PASSWDS has MAX_USERS records *)
 Definition Agree (s : st) (b : Z -> Z) : Prop :=
